@@ -126,10 +126,14 @@ func (this *Conn) NodeIds() []uint64 {
 
 func (this *Conn) AddNode(id uint64, address string) {
 	this.addressesMu.Lock()
-	defer this.addressesMu.Unlock()
-
-	if _, exists := this.addresses[id]; !exists {
+	_, exists := this.addresses[id]
+	if !exists {
 		this.addresses[id] = address
+	}
+	this.addressesMu.Unlock()
+
+	// Receivers of the notification read the address book. Notify them without holding its lock
+	if !exists {
 		this.sendNodesChangeNotification(&nodesChange {
 			Type: NodesChangeAddNode,
 			NodeId: id,
@@ -140,11 +144,9 @@ func (this *Conn) AddNode(id uint64, address string) {
 
 func (this *Conn) RemoveNode(id uint64) {
 	this.addressesMu.Lock()
-	defer this.addressesMu.Unlock()
 	this.connsMu.Lock()
-	defer this.connsMu.Unlock()
-
-	if _, exists := this.addresses[id]; exists {
+	_, exists := this.addresses[id]
+	if exists {
 		delete(this.addresses, id)
 		if conn, exists := this.conns[id]; exists {
 			if err := conn.Close(); err != nil {
@@ -152,6 +154,12 @@ func (this *Conn) RemoveNode(id uint64) {
 			}
 			delete(this.conns, id)
 		}
+	}
+	this.connsMu.Unlock()
+	this.addressesMu.Unlock()
+
+	// Receivers of the notification read the address book. Notify them without holding its lock
+	if exists {
 		this.sendNodesChangeNotification(&nodesChange {
 			Type: NodesChangeRemoveNode,
 			NodeId: id,
